@@ -41,7 +41,10 @@ package internal
 // the Age field: invalid values are ignored (RFC 9111 §5.1)
 //@ spec func ageFieldLo(s string) time.Duration = ite(isDigits(s), deltaNanos(s), 0)
 // corrected_initial_age (RFC 9111 §4.2.3), saturating
-//@ spec func initialAge(ageS string, date time.Time, reqT time.Time, respT time.Time) time.Duration = max(max(tsub(respT, date), 0), satadd(ageFieldLo(ageS), max(tsub(respT, reqT), 0)))
+//@ spec func initialAge(ageS string, date time.Time, reqT time.Time, respT time.Time) time.Duration = max(max(tsub(respT, date), 0), satadd(ageFieldLo(ageS), max(tsub(respT, reqT), 0))) # opaque
+//@ lemma initialAge-nonneg: forall ageS string, date time.Time, reqT time.Time, respT time.Time :: initialAge(ageS, date, reqT, respT) >= 0
+//@   reveal initialAge
+//@   property C01
 // current_age at clock reading t
 //@ spec func ageAt(a0 time.Duration, respT time.Time, t time.Time) time.Duration = satadd(a0, max(tsub(t, respT), 0))
 //@ spec func dateOf(h http.Header) time.Time = ite(validHTTPTime(hget(h, "Date")), httpTime(hget(h, "Date")), zeroTime())
@@ -77,6 +80,7 @@ package internal
 // ---- C01 / C11 / C13: current age -------------------------------------------------
 //@ func calculateCurrentAge
 //@   property C01 C11 C13
+//@   reveal initialAge
 //@   requires clock != nil
 //@   let a0 = initialAge(hget(h, "Age"), date, requestTime, responseTime)
 //@   assigns now
@@ -189,15 +193,21 @@ package internal
 //@ spec func heurStatus(c int) bool = c == 200 || c == 203 || c == 204 || c == 206 || c == 300 || c == 301 || c == 304 || c == 308 || c == 404 || c == 405 || c == 410 || c == 414 || c == 501
 // statuses this cache documents as heuristically cacheable (completeness, C09)
 //@ spec func heurDocumented(c int) bool = c == 200 || c == 203 || c == 206 || c == 301 || c == 304 || c == 308 || c == 404 || c == 405 || c == 410 || c == 414 || c == 501
-//@ spec func expiresLife(h http.Header, date time.Time) time.Duration = ite(expValid(hget(h, "Expires")) && ns(expTime(hget(h, "Expires"))) > ns(date), tsub(expTime(hget(h, "Expires")), date), 0)
-// "at most 10% of Date - Last-Modified", read at one-second granularity (DESIGN Appendix A)
+// The freshness lifetime as a function of the VALUES it depends on (field texts, status,
+// directive view, Date). Opaque outside the functions that compute it.
+//@ spec func expiresLifeV(expS string, date time.Time) time.Duration = ite(expValid(expS) && ns(expTime(expS)) > ns(date), tsub(expTime(expS), date), 0)
 //@ spec func tenthPlus1s(d time.Duration) time.Duration = d/10 + sec # opaque
 //@ lemma tenthPlus1s-nonneg: forall d time.Duration :: d >= 0 ==> tenthPlus1s(d) >= 0
 //@   reveal tenthPlus1s
 //@   property C01
-//@ spec func heurUpper(h http.Header, date time.Time) time.Duration = ite(validHTTPTime(hget(h, "Last-Modified")) && ns(httpTime(hget(h, "Last-Modified"))) < ns(date), tenthPlus1s(tsub(date, httpTime(hget(h, "Last-Modified")))), 0)
-//@ spec func lifeRest(h http.Header, status int, hs Arr[string, bool], date time.Time) time.Duration = ite(hget(h, "Expires") != "", expiresLife(h, date), ite(heurStatus(status) || hs["public"], heurUpper(h, date), 0))
-//@ spec func lifeUpper(h http.Header, status int, hs Arr[string, bool], vs Arr[string, string], date time.Time) time.Duration = ite(ccValidA(hs, vs, "max-age"), ccDurA(vs, "max-age"), lifeRest(h, status, hs, date))
+// "at most 10% of Date - Last-Modified", read at one-second granularity (DESIGN Appendix A)
+//@ spec func heurUpperV(lmS string, date time.Time) time.Duration = ite(validHTTPTime(lmS) && ns(httpTime(lmS)) < ns(date), tenthPlus1s(tsub(date, httpTime(lmS))), 0)
+//@ spec func heurUpper(h http.Header, date time.Time) time.Duration = heurUpperV(hget(h, "Last-Modified"), date)
+//@ spec func lifeUpperV(expS string, lmS string, status int, hs Arr[string, bool], vs Arr[string, string], date time.Time) time.Duration = ite(ccValidA(hs, vs, "max-age"), ccDurA(vs, "max-age"), ite(expS != "", expiresLifeV(expS, date), ite(heurStatus(status) || hs["public"], heurUpperV(lmS, date), 0))) # opaque
+//@ lemma lifeUpperV-nonneg: forall expS string, lmS string, status int, hs Arr[string, bool], vs Arr[string, string], date time.Time :: lifeUpperV(expS, lmS, status, hs, vs, date) >= 0
+//@   reveal lifeUpperV
+//@   property C01
+//@ spec func lifeUpper(h http.Header, status int, hs Arr[string, bool], vs Arr[string, string], date time.Time) time.Duration = lifeUpperV(hget(h, "Expires"), hget(h, "Last-Modified"), status, hs, vs, date)
 //@ spec func reqCap(l time.Duration, hq Arr[string, bool], vq Arr[string, string]) time.Duration = ite(ccValidA(hq, vq, "max-age"), min(l, ccDurA(vq, "max-age")), l)
 //@ spec func minFreshOK(age time.Duration, life time.Duration, hq Arr[string, bool], vq Arr[string, string]) bool = !ccValidA(hq, vq, "min-fresh") || satadd(age, ccDurA(vq, "min-fresh")) <= life
 //@ spec func maxStaleOK(age time.Duration, life time.Duration, hq Arr[string, bool], vq Arr[string, string]) bool = hq["max-stale"] && (vq["max-stale"] == "" || (isDigits(vq["max-stale"]) && satsub(age, life) <= ccDurA(vq, "max-stale")))
@@ -256,6 +266,7 @@ package internal
 
 //@ func (*freshnessCalculator).CalculateFreshness
 //@   implements FreshnessCalculator.CalculateFreshness
+//@   reveal lifeUpperV
 //@   requires f != nil && f.clock != nil
 
 // ---- parsing of the Cache-Control field (meaning of the text: C12) ------------------
